@@ -74,8 +74,7 @@ def _msg_stores(ctx, fi):
 def r1(ctx):
     fi = ctx.fn(FB)
     cfg, auth, unauth = _msg_stores(ctx, fi)
-    ctx.expect("C01.R1", "authenticated msg store (decrypt_gcm) in Packet.from_bytes", len(auth), 1)
-    ctx.expect("C01.R1", "decrypt_gcm call sites in package", len(package_calls(ctx.repo, "decrypt_gcm")), 1)
+    ctx.require("C01.R1", fi, "message bytes taken from crypto.decrypt_gcm in Packet.from_bytes", len(auth), 1)
     params = fi.params
     if "key" not in params:
         ctx.undecided("C01.R1", fi, "parameter `key` not found in Packet.from_bytes%s" % (params,))
@@ -192,7 +191,7 @@ def r2(ctx):
     # open side
     fi = ctx.fn(FB)
     decs = calls_named(fi, "decrypt_gcm")
-    ctx.expect("C01.R2", "decrypt site", len(decs), 1)
+    ctx.require("C01.R2", fi, "decrypt_gcm call in Packet.from_bytes", len(decs), 1)
     for c in decs:
         if len(c.args) != 4:
             ctx.undecided("C01.R2", fi, "decrypt_gcm arity")
@@ -213,8 +212,7 @@ def r2(ctx):
     # seal side
     to = ctx.fn("connection:Packet.to_bytes")
     encs = calls_named(to, "encrypt_gcm")
-    ctx.expect("C01.R2", "encrypt site", len(encs), 1)
-    ctx.expect("C01.R2", "encrypt_gcm call sites in package", len([1 for (f, c) in package_calls(ctx.repo, "encrypt_gcm")]), 1)
+    ctx.require("C01.R2", to, "encrypt_gcm call in Packet.to_bytes", len(encs), 1)
     for c in encs:
         if len(c.args) != 4:
             ctx.undecided("C01.R2", to, "encrypt_gcm arity")
@@ -314,7 +312,8 @@ def r4(ctx):
     fi = ctx.fn("connection:ConnectionBase._recv_datagram")
     cfg = cfg_of(fi)
     calls = [c for c in calls_named(fi, "from_bytes") if norm(c.func) == "Packet.from_bytes"]
-    ctx.expect("C01.R4", "Packet.from_bytes call in _recv_datagram", len(calls), 1)
+    if not ctx.require("C01.R4", fi, "Packet.from_bytes call in _recv_datagram", len(calls), 1):
+        return
     S = cfg.node_of(calls[0])
     pre = cfg.reachable(cfg.entry, through_effect={S.id})
     bad = []
